@@ -88,3 +88,35 @@ def _walker_table_exact(walker, rates):
 
 
 NATIVE.update({"walker_table_exact": _walker_table_exact})
+
+
+def _cb_uphill(pp, sx, sy, sz, x, L):
+    """Cumulative uphill energy of the nearest-image potential pp / |nearest(s - t e_x)| for t in [0, x] (the active unit
+    moves along +x, so the x separation decreases and is wrapped into [-L/2, L/2)): sum over the monotone segments
+    between the breakpoints t = sx + k L/2 of max(0, U(end) - U(start))."""
+    import math
+    rho2 = sy * sy + sz * sz
+
+    def U(t):
+        a = sx - t
+        a = a - L * math.floor(a / L + 0.5)
+        return pp / math.sqrt(a * a + rho2)
+    pts = [0.0, x]
+    k = math.ceil(-sx / (L / 2.0))
+    while True:
+        t = sx + k * (L / 2.0)
+        if t >= x:
+            break
+        if t > 0.0:
+            pts.append(t)
+        k += 1
+        if len(pts) > 100000:
+            break
+    pts = sorted(set(pts))
+    total = 0.0
+    for a, b in zip(pts, pts[1:]):
+        total += max(0.0, U(b) - U(a))
+    return total
+
+
+NATIVE.update({"cb_uphill": _cb_uphill})
